@@ -36,3 +36,8 @@ pub fn no_panic<T>(f: impl FnOnce() -> T) -> Result<T, String> {
 pub fn quiet_panics() {
     std::panic::set_hook(Box::new(|_| {}));
 }
+
+/// root of the repository under test (exported by ./check; /repo unless developing in a workspace)
+pub fn repo_root() -> String {
+    std::env::var("PDF_REPO").unwrap_or_else(|_| "/repo".to_string())
+}
